@@ -479,7 +479,7 @@ def _jobs_for(prop, tier):
         return [j for j in jobs_option_below(tier) if j[1][3] == 'combinations'] + jobs_combinations(tier) + jobs_axis0(tier, 'combinations') + jobs_record_below(tier, ('combinations',))
     if prop == 'C03':
         return jobs_c03(tier) + jobs_option_reduce(tier) + jobs_axis(tier, ('reduce',)) + jobs_reduce_nonlocal(tier) + jobs_unmasked_passthrough(('reduce_next',)) + jobs_record_reduce(tier)
-    return {'C02': (lambda t: jobs_c02(t) + jobs_numpy_toregular(t) + jobs_regular_getitem_jagged(t) + jobs_list_asslice(t) + jobs_indexed_widths(t)), 'C03': jobs_c03, 'C04': (lambda t: jobs_c04(t) + jobs_numpy_toregular(t)), 'C06': (lambda t: jobs_c06(t) + jobs_axis(t, ('sort', 'argsort')) + jobs_numpy_sort(t) + jobs_sort_nonlocal(t) + jobs_option_sort(t) + jobs_option_sort_above(t) + jobs_option_argsort(t) + jobs_string_argsort(t) + jobs_unmasked_passthrough(('sort_next', 'argsort_next'))), 'C08': (lambda t: jobs_c08(t) + jobs_numpy(t) + jobs_numpy_types(t) + jobs_union(t) + jobs_reverse_merge(t) + jobs_record_merge(t) + jobs_list_merge(t) + [j for j in jobs_record_named(t) if j[0] is h_record_mergemany_named] + jobs_merge_union(t) + jobs_union_ops(t)), 'C17': (lambda t: jobs_c17(t) + jobs_record_keys(t) + jobs_record_key_at(t)), 'C12': (lambda t: jobs_numpy(t) + jobs_numpy_astype(t) + [(h_index_alloc, (), 900)] + [(h_axis0, (L_, 'combinations', n_, True), 900) for L_, n_ in ((1, 2), (2, 3), (1, 3), (0, 2))] + [j for j in jobs_numpy_getitem(t) if j[1][3] == 'array']), 'C10': (lambda t: jobs_c10(t) + [j for j in jobs_record_named(t) if j[0] is h_record_field_key] + jobs_project(t) + [j for j in jobs_option_below(t) if j[1][3] in ('getitem_field', 'getitem_fields')] + jobs_record_setitem(t) + jobs_record_key_at(t)), 'C05': jobs_c05, 'C09': jobs_c09}.get(prop, lambda t: [])(tier)
+    return {'C02': (lambda t: jobs_c02(t) + jobs_numpy_toregular(t) + jobs_regular_getitem_jagged(t) + jobs_list_asslice(t) + jobs_indexed_widths(t)), 'C03': jobs_c03, 'C04': (lambda t: jobs_c04(t) + jobs_numpy_toregular(t)), 'C06': (lambda t: jobs_c06(t) + jobs_axis(t, ('sort', 'argsort')) + jobs_numpy_sort(t) + jobs_sort_nonlocal(t) + jobs_option_sort(t) + jobs_option_sort_above(t) + jobs_option_argsort(t) + jobs_string_argsort(t) + jobs_unmasked_passthrough(('sort_next', 'argsort_next'))), 'C08': (lambda t: jobs_c08(t) + jobs_numpy(t) + jobs_numpy_types(t) + jobs_union(t) + jobs_reverse_merge(t) + jobs_record_merge(t) + jobs_list_merge(t) + [j for j in jobs_record_named(t) if j[0] is h_record_mergemany_named] + jobs_merge_union(t) + jobs_union_ops(t)), 'C17': (lambda t: jobs_c17(t) + jobs_record_keys(t) + jobs_record_key_at(t) + jobs_node_form(t)), 'C12': (lambda t: jobs_numpy(t) + jobs_numpy_astype(t) + [(h_index_alloc, (), 900)] + [(h_axis0, (L_, 'combinations', n_, True), 900) for L_, n_ in ((1, 2), (2, 3), (1, 3), (0, 2))] + [j for j in jobs_numpy_getitem(t) if j[1][3] == 'array']), 'C10': (lambda t: jobs_c10(t) + [j for j in jobs_record_named(t) if j[0] is h_record_field_key] + jobs_project(t) + [j for j in jobs_option_below(t) if j[1][3] in ('getitem_field', 'getitem_fields')] + jobs_record_setitem(t) + jobs_record_key_at(t)), 'C05': jobs_c05, 'C09': jobs_c09}.get(prop, lambda t: [])(tier)
 
 
 # ------------------------------------------------------------------------------------------------ C01: getitem_next of list nodes
@@ -5584,6 +5584,130 @@ def jobs_record_key_at(tier):
     if tier != 'quick':
         q += [(None, 0), (None, 3)] + [((), 0, p_) for p_ in (-1, 0)] + [(('x', 'yy', 'zzz'), 3, p_) for p_ in (-3, 2, 3, 2 ** 40)]
     return [(h_record_key_at, a, 900) for a in q]
+
+
+FORM_OF = {   # class -> (source key, Form class, [(what, field number in the IR struct, expected value)], field number of the content form)
+    'ListOffsetArray64': ('LOA', 'ListOffsetForm', [('offsets', 1, 4)], 2), 'ListOffsetArray32': ('LOA', 'ListOffsetForm', [('offsets', 1, 2)], 2),
+    'ListOffsetArrayU32': ('LOA', 'ListOffsetForm', [('offsets', 1, 3)], 2),
+    'ListArray64': ('LA', 'ListForm', [('starts', 1, 4), ('stops', 2, 4)], 3), 'ListArray32': ('LA', 'ListForm', [('starts', 1, 2), ('stops', 2, 2)], 3),
+    'ListArrayU32': ('LA', 'ListForm', [('starts', 1, 3), ('stops', 2, 3)], 3),
+    'RegularArray': ('RA', 'RegularForm', [], 1),
+    'IndexedArray64': ('IA', 'IndexedForm', [('index', 1, 4)], 2), 'IndexedArray32': ('IA', 'IndexedForm', [('index', 1, 2)], 2), 'IndexedArrayU32': ('IA', 'IndexedForm', [('index', 1, 3)], 2),
+    'IndexedOptionArray64': ('IA', 'IndexedOptionForm', [('index', 1, 4)], 2), 'IndexedOptionArray32': ('IA', 'IndexedOptionForm', [('index', 1, 2)], 2),
+    'ByteMaskedArray': ('BMA', 'ByteMaskedForm', [('mask', 1, 0)], 3), 'BitMaskedArray': ('BIT', 'BitMaskedForm', [('mask', 1, 1)], 3), 'UnmaskedArray': ('UMA', 'UnmaskedForm', [], 1),
+}
+INDEX_FORM_NAMES = {0: 'i8', 1: 'u8', 2: 'i32', 3: 'u32', 4: 'i64'}
+
+
+@guard
+def h_node_form(cls, variant=None):
+    """form(materialize) of a list / indexed / option node: a Form of the node's own kind whose index tag names the width the node really has
+    (i32 / u32 / i64; i8 / u8 for masks), whose size / valid_when / lsb_order are the node's, which says "no identities" for a node without
+    them, and whose content form is exactly what the content answers for itself"""
+    src, fname, tags, cfield = FORM_OF[cls]
+    nc = NodeCtx(['LOA', 'LA', 'RA', 'IA', 'BMA', 'BIT', 'UMA', 'IDX', 'CNT', 'UTL', 'KD', 'IDS'], [], unwind=24)
+    from .mharness import module_of as _mo
+    foffs, fsize, fal, ffields = _mo(SRC[src]).types.struct_layout('%"class.awkward::' + fname + '"')
+    seen = []
+
+    def s_form(eng, fr, ins, st, name, argv):
+        sret, selfp, mat = argv
+        item = eng.new_record(st.mem, eng.fresh_name('contentform'), 16, tag='heap')
+        st.mem.o[item.obj].cells[item.off] = (Ptr('fakevt', 0), 8)
+        seen.append(dict(pc=st.pc, item=item, mat=mat, receiver=selfp))
+        nc._ret(st, sret, item)
+        return None
+    nc.m.eng.stubs['vf$slot%d' % nc.slot('4formEb')] = s_form
+    extra = []
+    if cls == 'RegularArray' or cls.startswith('ListOffsetArray') or cls.startswith('ListArray'):
+        dims = (3, 2) if cls == 'RegularArray' else (1, 2)
+        this, lists, starts, offs, short = list_node(nc, cls, dims)
+        if cls == 'RegularArray':
+            extra = [('size', 2, 8, BV(3))]
+    elif cls.startswith('Indexed'):
+        option = 'Option' in cls
+        if cls.endswith('64') and not cls.endswith('U32'):
+            this, idx = build_option64(nc, (False, True) if option else (False, False), option=option)
+        else:
+            this, idx = build_indexed(nc, cls, (False, True) if option else (False, False), nc.content0, nc.lencontent, 'node')
+        short = '14IndexedArrayOfI%sLb%dEE' % ({'64': 'l', '32': 'i', 'U32': 'j'}[cls[len('IndexedOptionArray' if option else 'IndexedArray'):]], 1 if option else 0)
+    elif cls == 'ByteMaskedArray':
+        this, mk = build_bytemasked(nc, (False, True), bool(variant))
+        short = '15ByteMaskedArray'
+        extra = [('valid_when', 4, 1, BV(1 if variant else 0, 8))]
+    elif cls == 'BitMaskedArray':
+        vw, lsb = variant
+        this, a0 = build_bitmasked(nc, (False, True, False), vw, lsb)
+        short = '14BitMaskedArray'
+        extra = [('valid_when', 4, 1, BV(1 if vw else 0, 8)), ('lsb_order', 5, 1, BV(1 if lsb else 0, 8))]
+    else:
+        this, vals = build_unmasked(nc, 2)
+        short = '13UnmaskedArray'
+    mat = nc.m.bv('materialize', 1)
+    nc.m.record('ret', {})
+    out = nc.m.call('_ZNK7awkward%s4formEb' % short, [Ptr('ret', 0), this, mat])
+    obls = [('form does not raise', out.raised), ('the content is asked for its form', z3.Not(z3.Or([ob['pc'] for ob in seen] + [z3.BoolVal(False)])))]
+    for ob in seen:
+        m8 = ob['mat'] if ob['mat'].size() == 1 else z3.Extract(0, 0, ob['mat'])
+        obls.append(('the content is asked with the same materialize flag', z3.And(ob['pc'], m8 != mat)))
+    res = out.mem.o['ret'].cells[0][0]
+    for g, q in nodeh.ptr_cases(res):
+        g = z3.And(g, z3.Not(out.raised))
+        if q.obj is None:
+            obls.append(('a form is returned', g))
+            continue
+        o = out.mem.o[q.obj]
+        vp = [str(qq.obj) for gg, qq in nodeh.ptr_cases(o.cells[q.off][0]) if qq.obj is not None]
+        if not (vp and ('N7awkward%d%sE' % (len(fname), fname)) in vp[0]):
+            obls.append(('the form is a %s (%s)' % (fname, vp[:1]), g))
+            continue
+        hid = o.cells.get(q.off + 8)
+        obls.append(('a node without identities says so', z3.And(g, (hid[0] if hid else BV(1, 8)) != 0)))
+        for what, fno, expect in tags:
+            c = o.cells.get(q.off + foffs[fno])
+            obls.append(('the %s tag is %s' % (what, INDEX_FORM_NAMES[expect]), z3.And(g, (c[0] if c else z3.BitVecVal(-1, 32)) != z3.BitVecVal(expect, 32))))
+        for what, fno, width, expect in extra:
+            c = o.cells.get(q.off + foffs[fno])
+            obls.append(('%s is the node\'s' % what, z3.And(g, (c[0] != expect) if c is not None else z3.BoolVal(True))))
+        cp = o.cells.get(q.off + foffs[cfield])
+        answered = [z3.And(ob['pc'], gg) for ob in seen for gg, qq in (nodeh.ptr_cases(cp[0]) if cp else []) if qq.obj == ob['item'].obj]
+        obls.append(('the content form is what the content answered', z3.And(g, z3.Not(z3.Or(answered + [z3.BoolVal(False)])))))
+
+    def replay(model, ent):
+        head = {'ListOffsetArray64': 'listoffset64 3 0 1 3', 'ListOffsetArray32': 'listoffset32 3 0 1 3', 'ListOffsetArrayU32': 'listoffsetU32 3 0 1 3',
+                'ListArray64': 'list64 2 0 1 1 3', 'ListArray32': 'list32 2 0 1 1 3', 'ListArrayU32': 'listU32 2 0 1 1 3', 'RegularArray': 'regular 3 0',
+                'IndexedArray64': 'indexed64 2 0 1', 'IndexedArray32': 'indexed32 2 0 1', 'IndexedArrayU32': 'indexedU32 2 0 1',
+                'IndexedOptionArray64': 'option64 2 0 -1', 'IndexedOptionArray32': 'option32 2 0 -1', 'UnmaskedArray': 'unmasked'}.get(cls)
+        if cls == 'ByteMaskedArray':
+            head = 'bytemask 2 1 0 %d' % (1 if variant else 0)
+        if cls == 'BitMaskedArray':
+            head = 'bitmask 1 5 %d 3 %d' % (1 if variant[0] else 0, 1 if variant[1] else 0)
+        prog = 'i64 6 0 1 2 3 4 5 ' + head + ' formjson'
+        kind_, got = fullnative.akrun(prog)
+        payload = dict(program=prog, native=[kind_, got])
+        want = {'class': cls if cls != 'RegularArray' else 'RegularArray'}
+        for what, fno, expect in tags:
+            want[what] = INDEX_FORM_NAMES[expect]
+        if cls == 'RegularArray':
+            want['size'] = 3
+        if cls == 'ByteMaskedArray':
+            want['valid_when'] = bool(variant)
+        if cls == 'BitMaskedArray':
+            want['valid_when'], want['lsb_order'] = bool(variant[0]), bool(variant[1])
+        bad = kind_ != 'OK' or not isinstance(got, dict) or any(got.get(k) != v for k, v in want.items()) or not isinstance(got.get('content'), (dict, str)) \
+            or (got.get('content') if isinstance(got.get('content'), str) else got.get('content', {}).get('primitive', got.get('content', {}).get('class'))) not in ('int64', 'NumpyArray')
+        if bad:
+            return True, 'form of a %s over int64 numbers: native library %s %s (expected %s with an int64 content)' % (cls, kind_, str(got)[:200], want), payload
+        return False, 'native form agrees (%s)' % str(got)[:80], payload
+    return mdischarge(nc.m, '%s::form%s' % (cls, '' if variant is None else ' variant=%s' % (variant,)), obls, [], replay=replay,
+                      extra=dict(bounds='one node of each class over an opaque content whose form is an opaque object; materialize symbolic'))
+
+
+def jobs_node_form(tier):
+    js = [(h_node_form, (c,), 900) for c in FORM_OF if c not in ('ByteMaskedArray', 'BitMaskedArray')]
+    js += [(h_node_form, ('ByteMaskedArray', v), 900) for v in (True, False)]
+    js += [(h_node_form, ('BitMaskedArray', v), 900) for v in ((True, True), (False, True), (True, False), (False, False))]
+    return js
 
 
 def jobs_record_keys(tier):
